@@ -33,7 +33,7 @@ def prepare(patch):
 
 
 def run(patch, props=None, tier='quick'):
-    from rpsa.main import run_property
+    from rpsa.main import run_consensus
     from rpsa.model import Program, AnalysisError
     from rpsa.report import load_known, norm
     prepare(patch)
@@ -44,8 +44,7 @@ def run(patch, props=None, tier='quick'):
     out = {}
     for pid in ids:
         try:
-            rep = run_property(pid, tier, WT, quiet=True, prog=prog)
-            rep.verify_minimums()
+            rep = run_consensus(pid, tier, WT, quiet=True, prog=prog)
             new = []
             for f in rep.findings:
                 if any(k['property'] == pid and k.get('rule') == f.rule and
